@@ -964,7 +964,30 @@ func (e *ex) configured(code int, rb, body string, shapes []rawShape, def []int6
 		if def != nil {
 			e.latency = def[2]
 		}
-		if d := e.settle(); d != 0 {
+		// "an accepted configuration applies (in full) to connections accepted afterwards": whatever was
+		// posted before - also this very body - the active shapes are now exactly the posted ones with
+		// their posted counts
+		d := e.settle()
+		for id, os := range e.cfg {
+			var want []string
+			for _, h := range os.halts {
+				want = append(want, strconv.FormatInt(h.rem, 10))
+			}
+			for _, c := range os.closes {
+				want = append(want, strconv.FormatInt(c.rem, 10))
+			}
+			w := "-"
+			if len(want) > 0 {
+				w = strings.Join(want, ",")
+			}
+			if got := e.counts(id); got != w {
+				r := fail("c18:accepted-config-not-installed", "the configuration was accepted (200) but the active shape %s has the action counts %s, posted were %s (history: %d configurations accepted before, %d bucket goroutines started instead of %d): %s",
+					id, got, w, e.gen-1, n+d, n, body)
+				r.Impl = "accepted"
+				return r
+			}
+		}
+		if d != 0 {
 			return fail("c18:leak:accept-extra-goroutines", "accepting a configuration with %d shapes started %d bucket goroutines", n, n+d)
 		}
 		return core.Result{Impl: "accepted"}
